@@ -308,9 +308,9 @@ package internal
 // ... and is exactly: the lower-cased text before the first "=" of the list element with the
 // OWS-trimmed text after it as the argument, or the lower-cased trimmed element with an empty argument
 //@ fnparam directivesSeq2$1$1.yield(key, value)
-//@   requires key == lower(key) && len(key) > 0                              # name: directive-name-lower-cased
-//@   requires cutFound(arg0, "=") ==> key == lower(cutBefore(arg0, "=")) && value == trimOWS(cutAfter(arg0, "="))      # name: name-and-argument-split-at-the-first-equals
-//@   requires !cutFound(arg0, "=") ==> key == lower(trimOWS(arg0)) && value == ""                                     # name: bare-directive-has-an-empty-argument
+//@   requires noUpperA(key) && len(key) > 0                                  # name: directive-name-lower-cased
+//@   requires cutFound(arg0, "=") ==> key == lowerA(cutBefore(arg0, "=")) && value == trimOWS(cutAfter(arg0, "="))      # name: name-and-argument-split-at-the-first-equals
+//@   requires !cutFound(arg0, "=") ==> key == lowerA(trimOWS(arg0)) && value == ""                                     # name: bare-directive-has-an-empty-argument
 //@   pure
 //@ func directivesSeq2$1$1
 //@   property C12
@@ -976,11 +976,28 @@ package internal
 //@   property C03 C07
 //@   pure
 //@   ensures result == ite(scheme == "http", "80", ite(scheme == "https", "443", ""))                 # name: exact
+// ---- ASCII case folding (RFC 3986 §6.2.2.1, RFC 9110 §5.6.2): verified, not assumed -------------
+// lb(c): the lower-case form of an ASCII letter, every other byte unchanged. lowerA(s) names
+// asciiLower's result; what it is byte by byte is asciiLower's verified postcondition.
+//@ spec func lb(c byte) byte = ite(c >= 65 && c <= 90, c + 32, c)
+//@ spec func lowerA(s string) string
+//@ spec func noUpperA(s string) bool = forall i int :: 0 <= i && i < len(s) ==> !(s[i] >= 65 && s[i] <= 90)
+//@ func asciiLower
+//@   property C03 C04 C07 C12
+//@   pure
+//@   ensures result == lowerA(s)                                                                   # ghost-update
+//@   ensures len(result) == len(s)                                                                 # name: length-kept
+//@   ensures forall k int :: 0 <= k && k < len(s) ==> result[k] == lb(s[k])                        # name: only-ascii-letters-change
+//@   ensures noUpperA(result)                                                                      # name: result-has-no-upper-case-ascii-letter
+//@   loop 0 invariant 0 <= i && i <= len(b) && len(b) == len(s)
+//@   loop 0 invariant forall j int :: 0 <= j && j < i ==> b[j] == lb(s[j])
+//@   loop 0 invariant forall j int :: i <= j && j < len(b) ==> b[j] == s[j]
+//@   loop 0 decreases len(b) - i                                                                   # name: case-folding-terminates   props: C10 C03
 //@ func sameOrigin
 //@   property C07
 //@   pure
 //@   requires a != nil && b != nil
-//@   ensures result == (lower(a.Scheme) == lower(b.Scheme) && lower(nameOfHost(a.Host)) == lower(nameOfHost(b.Host)) && effPort(a) == effPort(b))    # name: scheme-host-port
+//@   ensures result == (lowerA(a.Scheme) == lowerA(b.Scheme) && lowerA(nameOfHost(a.Host)) == lowerA(nameOfHost(b.Host)) && effPort(a) == effPort(b))    # name: scheme-host-port
 
 // ---- C03: percent-encoding normalisation (RFC 3986 §6.2.2.1-6.2.2.2) ------------------------------
 //@ spec func hexDigit(c byte) bool = (c >= '0' && c <= '9') || (c >= 'A' && c <= 'F') || (c >= 'a' && c <= 'f')
@@ -1033,7 +1050,7 @@ package internal
 //@ spec func effPortS(scheme string, hp string) string = ite(portPartOf(hp) == "", ite(scheme == "http", "80", ite(scheme == "https", "443", "")), portPartOf(hp))
 //@ spec func defPortS(scheme string) string = ite(scheme == "http", "80", ite(scheme == "https", "443", ""))
 // lower-cased host, in brackets when it contains a colon (IPv6 literal), followed by ":port" unless the port is the scheme's default
-//@ spec func hostKeyS(hp string) string = ite(containsS(lower(hostPartOf(hp)), ":"), "[" + lower(hostPartOf(hp)) + "]", lower(hostPartOf(hp)))
+//@ spec func hostKeyS(hp string) string = ite(containsS(lowerA(hostPartOf(hp)), ":"), "[" + lowerA(hostPartOf(hp)) + "]", lowerA(hostPartOf(hp)))
 //@ spec func authorityS(scheme string, hp string) string = ite(effPortS(scheme, hp) != "" && effPortS(scheme, hp) != defPortS(scheme), hostKeyS(hp) + ":" + effPortS(scheme, hp), hostKeyS(hp))
 //@ spec func pathOrSlash(scheme string, ep string) string = ite(ep == "" && (scheme == "http" || scheme == "https"), "/", ep)
 //@ spec func npAll(s string) string = np(s, len(s))
